@@ -670,6 +670,8 @@ class Executor:
         inside = self.mem_keys(d.keys, k.t)
         # case split instead of an if-then-else term: the instantiator matches syntactically
         newkeys = d.keys if self.choose(inside) else d.KL.snoc(d.keys, k.t)
+        if isinstance(v, (VEmptyList, VEmptySet, VEmptyDict)):
+            v = self.coerce(v, d.et, "dict value")
         vt = value_term(v, d.et)
         newval = z3.Store(d.val, k.t, vt)
         nd = VDict(newkeys, newval, d.et, d.kt)
@@ -981,7 +983,9 @@ class Executor:
                 if isinstance(f, ast.Attribute) and f.attr in MUT and not isinstance(f.value, ast.Name):
                     # in-place mutation of a container reached through an object: havoc that field
                     recv = f.value
-                    if isinstance(recv, ast.Subscript) and isinstance(recv.slice, ast.Constant) and isinstance(recv.slice.value, str):
+                    if isinstance(recv, ast.Subscript) and isinstance(recv.value, ast.Name) and isinstance(ex.st.env.get(recv.value.id), (VDict, VList)):
+                        names.add(recv.value.id)  # d[k].append(x) on a local container: d changes
+                    elif isinstance(recv, ast.Subscript) and isinstance(recv.slice, ast.Constant) and isinstance(recv.slice.value, str):
                         try:
                             o = ex.eval(recv.value)
                         except Exception:
@@ -1243,6 +1247,10 @@ class Executor:
                 raise Unsupported(f"record key '{k.const}' not declared in the contract's type")
             return f[k.const]
         k = self.eval(node.slice)
+        if isinstance(o, VOptional):
+            # subscripting None raises TypeError
+            self.oblige("noraise.subscript_on_None", node, z3.Not(o.isnone))
+            o = o.val
         if isinstance(o, VFalseOr):
             # subscripting `False` raises TypeError
             self.oblige("noraise.subscript_on_False", node, z3.Not(o.isfalse))
@@ -1415,6 +1423,10 @@ class Executor:
             if isinstance(op, ast.GtE):
                 return a.t >= b.t
         if isinstance(op, (ast.In, ast.NotIn)):
+            if isinstance(b, VOptional):
+                # `x in None` raises TypeError
+                self.oblige("noraise.in_none", node, z3.Not(b.isnone))
+                b = b.val
             if isinstance(b, VRef) and self.st.obj(b.ref)["kind"] == "rec" and isinstance(a, VStr) and a.const is not None:
                 rec = self.st.obj(b.ref)
                 present = rec.get("present", {}).get(a.const)
@@ -1559,7 +1571,7 @@ class Executor:
         self.assign(gen.target, seq.at(i))
         ev = self.eval(node.elt)
         new_pc = st.pc[guard_pos:]
-        new_consts = st.fresh_consts[consts_before + 1:]  # all but i
+        new_consts = st.fresh_consts[consts_before:]  # everything created while evaluating the element (i itself was created before)
         st.env = saved_env
         del st.pc[pc_before:]
         if isinstance(ev, (VRef, VTuple, VFalseOr, VOptional, VDict)):
